@@ -663,6 +663,9 @@ def adc_input(kind, length, dt, form, seed):
         else:
             unit = COUNTS[dt][0] if dt in COUNTS else XFORM.get(dt, (1.0, 0.0))[0]
             noise = (nbase * unit).astype(np.float32 if sig.dtype == np.float64 else np.float64)
+        if np.ptp(np.asarray(sig) + noise) == 0:      # 8-bit pair [a, a+1] + noise [1, 0]: keep the record non-constant
+            noise = noise.copy()
+            noise[0] = noise[0] - 1 if noise[0] > 0 else noise[0] + 1
         arg = electrical_signal(sig, noise)
         x = arg.signal + arg.noise
     return arg, np.array(x, dtype=float), work_dtype(x)
@@ -915,7 +918,8 @@ def run(ctx):
                    for p in PERCENTS + (0.5, 12.5) for j in range(1 if q else 2)]
     ctx.pmap('si-long', si_long, long_cases, horizon=120)
 
-    # ---- ADC, single conversions.  thorough: the full product.  quick: the base block (7 dtype forms x 3 input forms, as
+    # ---- ADC, single conversions.  thorough: the full product (cells with a new dtype form AND a new input form: every
+    # second bit depth; sweeps of those cells: writable form only).  quick: the base block (7 dtype forms x 3 input forms, as
     # before the hardening pass) and, around it, one deviation at a time: a new dtype / value form with the base input forms,
     # a new input form with four dtype forms; both with every second bit depth; 9999 / 127 / 1024 / 2^17 only for float64
     # (2^17 for the other forms is left to the sweeps)
@@ -928,8 +932,10 @@ def run(ctx):
         for dt in ADC_DTYPES:
             for f in ADC_FORMS:
                 new_dt, new_f = dt in ADC_DTYPES_NEW, f in ADC_FORMS_NEW
-                if not q or not (new_dt or new_f):
+                if not (new_dt or new_f) or (not q and not (new_dt and new_f)):
                     yield dt, f, single_lengths(dt), ADC_NS
+                elif not q:                                   # thorough, two deviations at once: every second bit depth
+                    yield dt, f, ADC_LENGTHS, NS_THIN
                 elif new_dt != new_f and (new_dt or dt in ('f8', 'i4', 'f4', 'u2')):
                     yield dt, f, ADC_LENGTHS_THIN, NS_THIN
 
@@ -944,14 +950,15 @@ def run(ctx):
     cf_cases = [(k, L, dt, n, o, f, ctx.seed, cf)
                 for cf in ADC_CALLFORMS[1:] for dt in (('f8', 'i4') if q else ('f8', 'i4', 'u2', 'f4'))
                 for L in ((3, 100, 10001, 20000) if q else (3, 100, 10001, 20000, 2 ** 17)) for k in ADC_KINDS
-                for f in (('ndarray', 'container+noise') if q else ADC_FORMS) for n in (1, 8, 12) for o in ('n', 'v')
+                for f in (('ndarray', 'container+noise') if q else ('ndarray', 'container+noise', 'container+other-noise',
+                                                                    'chain:8n')) for n in (1, 8, 12) for o in ('n', 'v')
                 if not (cf == 'otype:default' and o == 'n')]
     ctx.pmap('adc-callforms', adc_case, cf_cases, horizon=120)
 
     def sweep_member(dt, f, L, prot):
-        if not q:
-            return True
         new_dt, new_f = dt in ADC_DTYPES_NEW, f in ADC_FORMS_NEW
+        if not q:
+            return not (new_dt and new_f and prot)
         if new_dt and new_f:
             return False
         if new_dt:                 # writable form, input forms ndarray / container+noise; 2^17 for 'ulp' and int8
